@@ -12,7 +12,7 @@ RULE = ('the C04 capacity boundaries (exact-fit and one-less lengths for every l
         'boost off; distinct = (version, level in matrix, requested level, boost) combinations observed')
 ASSUMPTIONS = common.ASSUME_QR
 REQUIRED = ['evaluations', 'encode_observed', 'symbols_decoded', 'paired_calls', 'boost_raised_level', 'boost_off_observed']
-TIMEOUT = {'quick': 900, 'thorough': 7200}
+TIMEOUT = {'quick': 3600, 'thorough': 21600}
 
 
 def gen_cases(tier, seed):
